@@ -1945,3 +1945,20 @@ Proof.
   - intros. split; auto. apply kill_out; cbn; auto.
   - intros. split; auto. apply finish_unsubs_out; cbn; auto.
 Qed.
+
+Lemma run_app_snd s es1 es2 : snd (run s (es1 ++ es2)) = snd (run s es1) ++ snd (run (fst (run s es1)) es2).
+Proof.
+  revert s. induction es1 as [|e es1 IH]; intros s; [reflexivity|].
+  rewrite <- app_comm_cons, !run_cons. cbn [fst snd]. rewrite IH. reflexivity.
+Qed.
+
+Lemma run_length s es : length (snd (run s es)) = length es.
+Proof. revert s. induction es as [|e es IH]; intros s; [reflexivity|]. rewrite run_cons. cbn [snd length]. rewrite IH. reflexivity. Qed.
+
+(* the k-th element of a run's trace is the output of the k-th step, taken in the state reached by the first k events *)
+Lemma run_nth s es e rest :
+  nth_error (snd (run s (es ++ e :: rest))) (length es) =
+  Some (snd (fst (step (fst (run s es)) e)), snd (step (fst (run s es)) e)).
+Proof.
+  rewrite run_app_snd, nth_error_app2; rewrite run_length; [|lia]. rewrite Nat.sub_diag, run_cons. reflexivity.
+Qed.
